@@ -10,6 +10,7 @@
    Statements only; proofs are in Proofs/CanonWalk.v (walk invariant), Proofs/Coverage.v (the walks visit the
    whole group) and Proofs/CanonOrbit.v (idempotence, same representative). *)
 From Coq Require Import List NArith Bool.
+From V Require Proofs.ExprsTie2.   (* expressions of cube.rs / ecube.rs / bdd.rs / canonization.rs, regenerated from the Rust source, equal the model's *)
 From V Require Proofs.GrayAll Proofs.CanonAllN.
 From V Require Proofs.SjtAll Proofs.CanonNpnAll.
 From V Require Import Base.Res Model.Kernels Model.Canon Spec.Bfun Spec.Transform Proofs.Order Proofs.ActGroup
